@@ -4,7 +4,7 @@ import json, os, shutil, subprocess, sys
 src, name = sys.argv[1], sys.argv[2]
 extra = sys.argv[3:]
 r = subprocess.run(['/verif/tools/seedcheck.py', src] + extra, stdout=subprocess.PIPE, text=True)
-res = json.loads(r.stdout[r.stdout.index('{'):])
+res = json.loads(r.stdout[r.stdout.index('{'):], strict=False)
 notes = {}
 for n in ('notes.json', 'meta.json'):
     p = os.path.join(src, n)
@@ -17,7 +17,7 @@ if os.path.abspath(src) != os.path.abspath(dst):
     shutil.copy(os.path.join(src, 'patch.diff'), dst)
 if os.path.exists(os.path.join(src, 'demo.py')) and os.path.abspath(src) != os.path.abspath(dst):
     shutil.copy(os.path.join(src, 'demo.py'), dst)
-meta = {'property': res['property'], 'breaks': notes.get('breaks'), 'needs': notes.get('needs'), 'author_ran': notes.get('ran') or notes.get('author_ran'),
+meta = {'property': res['property'], 'breaks': notes.get('breaks') or notes.get('summary'), 'needs': notes.get('needs') or notes.get('needs_to_manifest'), 'author_ran': notes.get('ran') or notes.get('author_ran') or notes.get('tests_run'),
         'confirmed': {'demo_fails_with_change': res.get('demo_with_change_rc', 0) != 0, 'demo_passes_without': res.get('demo_without_change_rc') == 0,
                       'how': 'tools/seedcheck.py: patch applied in a scratch worktree of /repo HEAD, demo.py run with and without, ./check run with VERIF_REPO pointing at the worktree'},
         'check': {'detected': res.get('detected'), 'no_failing_input_found': res.get('no_failing_input'), 'tail': res.get('check_tail', '')[-500:]}}
